@@ -16,7 +16,8 @@
 
     Abstractions, stated once:
     - time.Time / time.Duration are Z nanoseconds; no int64 saturation (times and
-      periods stay within +-100 years of each other);
+      periods stay within +-100 years of each other); the one product the code
+      computes, blockTime * 3, wraps to int64 as in Go ([wrap_i64]);
     - the pending ranges are represented by their head only (ranges.Head);
     - subjectiveTail is an input: it fails, or succeeds after possibly appending
       one header [t] through syncStore.Append (what renewTail does on an empty
@@ -44,8 +45,12 @@ Record params := Params {
 Definition is_expired (p : params) (now : Z) (h : hdr) : bool :=
   if h_nil h then false else (0 <? now - (h_time h + p_trust p))%Z.
 
+(** two's complement wrap of a mathematical integer to int64 (Go's time.Duration arithmetic) *)
+Definition wrap_i64 (x : Z) : Z := ((x + 9223372036854775808) mod 18446744073709551616 - 9223372036854775808)%Z.
+
+(** recencyThreshold, 0 = blockTime * 3 -- an int64 product, it wraps like Go's *)
 Definition recency_thr (p : params) : Z :=
-  if (p_recency p =? 0)%Z then (p_block p * 3)%Z else p_recency p.
+  if (p_recency p =? 0)%Z then wrap_i64 (p_block p * 3) else p_recency p.
 
 (** isRecent: Since(t + threshold) <= 0 *)
 Definition is_recent (p : params) (now : Z) (h : hdr) : bool :=
